@@ -103,6 +103,9 @@ FIXED = [
     line(23, proto="tcp", req=100000, resp=1000, sop="drop_early", deadline_ms=20000),
     line(24, proto="tcp", req=100000, resp=1000, cop="drop_early", deadline_ms=20000),
     line(25, proto="tcp", req=1000, resp=1000, sop="forget_secret", deadline_ms=20000),
+    # the upper half of the MTU range (with #7: three scenarios at or above 16384, none of them the only UDP ones)
+    line(26, req=50000, resp=50000, mtu=16384),
+    line(27, req=300000, resp=100000, mtu=32768, drop=100, dup=50, reorder=100, faults_ms=1000, cop="concurrent", sop="write_first"),
 ]
 
 
